@@ -216,7 +216,7 @@ func partC(pool *jvmPool) {
 						"jdk_dsig": jr, "jdk_stepwise": jm, "relic_verifies_own": ownErr == nil, "relic_verifies_fixed_width": fixedErr == nil, "jdk_dsig_on_fixed_width": jf}
 					table = append(table, row)
 					if jf != "OK 1 valid" {
-						report("sigvalue:reference-rejects-document-carrying-the-correct-fixed-width-value","the correctly padded r||s does not validate under the reference: "+caseName+" "+jf, 0, row)
+						report("sigvalue:reference-rejects-document-carrying-the-correct-fixed-width-value", "the correctly padded r||s does not validate under the reference: "+caseName+" "+jf, 0, row)
 					}
 					if fixedErr != nil {
 						run.Outcome("sigvalue:relic-rejects-fixed-width")
@@ -225,7 +225,7 @@ func partC(pool *jvmPool) {
 					if len(sv) == 2*n {
 						run.Outcome("sigvalue:ecdsa-width-correct")
 						if jr != "OK 1 valid" {
-							report("sigvalue:right-width-but-reference-rejects","SignatureValue has the right width but the reference rejects: "+caseName+" "+jr, 0, row)
+							report("sigvalue:right-width-but-reference-rejects", "SignatureValue has the right width but the reference rejects: "+caseName+" "+jr, 0, row)
 						}
 						continue
 					}
